@@ -1,0 +1,16 @@
+//go:build verif
+
+package quickfix
+
+// Read-only access for the /verif correspondence harness (area dict, stream validate).
+// Add-only; never compiled into a normal build.
+
+// VerifDictWireFields returns tag and value of every entry of Message.fields, in wire order:
+// exactly what validateFieldContent, validateFields and validateWalk iterate over.
+func VerifDictWireFields(m *Message) (tags []int, values [][]byte) {
+	for _, tv := range m.fields {
+		tags = append(tags, int(tv.tag))
+		values = append(values, append([]byte(nil), tv.value...))
+	}
+	return
+}
